@@ -6,7 +6,7 @@
    the per-class desired routes and the interface view; `kroute_is_ours` is the ownership policy applied to a
    kernel route; `in_grace` is the route-cleanup grace period of a recently seen workload interface. *)
 From Coq Require Import List NArith Bool String Permutation.
-From Verif.C17 Require Import Model Spec Proofs ProofsAttempt ProofsWinner ProofsApply ProofsEvery ProofsSound.
+From Verif.C17 Require Import Model Spec Proofs ProofsAttempt ProofsWinner ProofsApply ProofsEvery ProofsSound ProofsFull.
 Import ListNotations.
 Open Scope N_scope.
 
@@ -55,22 +55,24 @@ Print Assumptions c17_desired_tracks_winner.
 
 (* ------------------------------------------------------------------------------------------------
    Convergence of Apply.  From ANY RouteTable state (s_full = a full resync is pending, as at start of day and after
-   QueueResync), ANY kernel contents that form a finite map, and ANY netlink failure plan: if Apply() returns nil and
-   the attempt that produced the result is one that ran the full resync, then
+   QueueResync), ANY kernel contents that form a finite map, and ANY netlink failure plan: if Apply() returns nil (and, for
+   the second and third clause, the attempt that produced the result is one that ran the full resync), then
      - every desired route is in the kernel exactly                                        (c17_converges)
      - a route of ours with no desired route is gone, unless its interface is in its grace period (c17_stale_removed)
      - routes in other tables, and routes that are not ours at destinations we do not want, are untouched
                                                                                             (c17_foreign_untouched)
    Together with c17_desired_tracks_winner the desired routes are the class-priority winners.
-   What is NOT covered (hence c17_any_history_partial below): the Apply whose first attempt completes the full resync,
-   fails later, and whose inline retry (per-interface resync only) succeeds; and Applies with no full resync pending.
+   What is NOT covered for stale removal / foreign routes (hence c17_any_history_partial below): the Apply whose first
+   attempt completes the full resync, fails later, and whose inline retry (per-interface resync only) succeeds; and
+   Applies with no full resync pending (for those, c17_desired_present_after_any_successful_apply gives the first clause).
    For those the statement is FALSE of the pinned code (c17_any_history_refuted_A, _B), and holds on every generated
    history once the two fixes/C17 patches are applied (correspondence run on the patched tree; c17_fixed_model_witnesses). *)
+(* c17_converges holds at full strength: no condition on which attempt succeeded or what kind of resync it ran *)
 Theorem c17_converges : forall cfg p s e s' e',
-  NoDup (keys (e_routes e)) -> s_full s = true -> last_attempt_full cfg p s e = true ->
+  NoDup (keys (e_routes e)) -> s_full s = true ->
   apply cfg p s e = (false, s', e') ->
   forall k d, lookup rkey_eqb (s_desired s') k = Some d -> tbl cfg e' k = Some d.
-Proof. exact apply_converges. Qed.
+Proof. exact apply_converges_full. Qed.
 Print Assumptions c17_converges.
 
 Theorem c17_stale_removed : forall cfg p s e s' e',
@@ -213,3 +215,26 @@ Example c17_example_hypotheses_satisfiable :
    tbl cfg_pinned e' (rk 6 0) = Some (mkr 1 253 0 4 false 0 31 0) /\
    lookup kkey_eqb (e_routes e') (kk 100 0 0) = Some (mkr 1 253 0 3 false 0 11 0)).
 Proof. vm_compute. repeat split; reflexivity. Qed.
+
+(* the same two conflicting routes arriving in either order, interface events interleaved: same desired route (the
+   class-0 one), and the histories satisfy the well-formedness hypothesis of c17_desired_tracks_winner *)
+Definition ex_conflict_1 : list op :=
+  [OIface "eth0" 31 IfUp; ORouteUpdate 4 "eth0" (rk 0 0) (mkt TVXLAN 1 0 80 0);
+   OIface "cali1" 11 IfUp; ORouteUpdate 0 "cali1" (rk 0 0) (mkt TLinkLocal 0 0 0 0)].
+Definition ex_conflict_2 : list op :=
+  [OIface "cali1" 11 IfUp; ORouteUpdate 0 "cali1" (rk 0 0) (mkt TLinkLocal 0 0 0 0);
+   OIface "eth0" 31 IfUp; ORouteUpdate 4 "eth0" (rk 0 0) (mkt TVXLAN 1 0 80 0)].
+
+Example c17_example_conflict_order :
+  lookup rkey_eqb (s_desired (fst (run_st cfg_pinned ex_conflict_1 (st0, env0)))) (rk 0 0) = Some (mkr 1 253 0 3 false 0 11 0) /\
+  lookup rkey_eqb (s_desired (fst (run_st cfg_pinned ex_conflict_2 (st0, env0)))) (rk 0 0) = Some (mkr 1 253 0 3 false 0 11 0) /\
+  forallb quiet ex_conflict_1 = true.
+Proof. vm_compute. repeat split; reflexivity. Qed.
+
+Example c17_example_wf_hist : wf_hist cfg_pinned ex_conflict_1 (st0, env0).
+Proof.
+  cbn. split; [split; [intro H; discriminate H | intros n _ H; discriminate H]|].
+  split; [exact I|]. split; [|split; exact I].
+  split; [intro H; discriminate H|]. intros n Hn. rewrite recalc_n2i. cbn.
+  unfold set. cbn. destruct (String.eqb n "eth0"); intro H; discriminate H.
+Qed.
